@@ -70,9 +70,31 @@ let hex_of_bits (bits : bool list) : string =
 let set_of_hex s = { fin = n_of_bits (bits_of_hex s); inf = false }
 let hex_of_set (s : bset) = if s.inf then "INF" else hex_of_bits (bits_of_n s.fin)
 
-let bytes_of_string s = List.init (String.length s) (fun i -> n_of_bits (bits_of_dec (string_of_int (Char.code s.[i]))))
+let raw_bytes_of_string s = List.init (String.length s) (fun i -> n_of_bits (bits_of_dec (string_of_int (Char.code s.[i]))))
 let rec int_of_bits = function [] -> 0 | b :: r -> (if b then 1 else 0) + 2 * int_of_bits r
-let string_of_bytes l = String.concat "" (List.map (fun x -> String.make 1 (Char.chr (int_of_bits (bits_of_n x) land 255))) l)
+let raw_string_of_bytes l = String.concat "" (List.map (fun x -> String.make 1 (Char.chr (int_of_bits (bits_of_n x) land 255))) l)
+(* attribute names in scripts: bytes other than [A-Za-z0-9_.+-] are written %XX, "@empty" is the empty name *)
+let is_hex c = (c >= '0' && c <= '9') || (c >= 'a' && c <= 'f') || (c >= 'A' && c <= 'F')
+let decode_name (t : string) : string =
+  if t = "@empty" then "" else begin
+    let b = Buffer.create 16 in
+    let n = String.length t in
+    let i = ref 0 in
+    while !i < n do
+      if t.[!i] = '%' && !i + 2 < n && is_hex t.[!i + 1] && is_hex t.[!i + 2] then begin
+        Buffer.add_char b (Char.chr (int_of_string ("0x" ^ String.sub t (!i + 1) 2))); i := !i + 3
+      end else begin Buffer.add_char b t.[!i]; incr i end
+    done;
+    Buffer.contents b
+  end
+let encode_name (s : string) : string =
+  if s = "" then "@empty" else
+  String.concat "" (List.init (String.length s) (fun i ->
+    let c = s.[i] in
+    if (c >= 'a' && c <= 'z') || (c >= 'A' && c <= 'Z') || (c >= '0' && c <= '9') || c = '_' || c = '.' || c = '+' || c = '-'
+    then String.make 1 c else Printf.sprintf "%%%02X" (Char.code c)))
+let bytes_of_string s = raw_bytes_of_string (decode_name s)
+let string_of_bytes l = encode_name (raw_string_of_bytes l)
 
 (* ---- script ---- *)
 
